@@ -624,6 +624,57 @@ def lit(ev):
         ev.value is not None and isinstance(ev.value, ast.Constant) and isinstance(ev.value.value, int)) else None
 
 
+def _stored_canonical(m, listname, modname):
+    """every `listname.append(E)` of the module stores a canonical element: E, with locals resolved, is `X % modname`, or a call of a
+    module-level helper all of whose returns are; and nothing else writes the list"""
+    from ..flatten import resolve_locals
+    apps = []
+    for f in m.functions.values():
+        if isinstance(f.node, ast.Lambda):
+            continue
+        for c in ast.walk(f.node):
+            if isinstance(c, ast.Call) and norm(c.func) == "%s.append" % listname and len(c.args) == 1:
+                apps.append((f, c))
+            elif isinstance(c, ast.Call) and isinstance(c.func, ast.Attribute) and norm(c.func.value) == listname \
+                    and c.func.attr in ("extend", "insert", "__setitem__", "__iadd__"):
+                return False
+            elif isinstance(c, (ast.Assign, ast.AugAssign)):
+                tg = c.targets if isinstance(c, ast.Assign) else [c.target]
+                if any(isinstance(t, ast.Subscript) and norm(t.value) == listname for t in tg) or any(
+                        isinstance(c, ast.AugAssign) and norm(t) == listname for t in tg):
+                    return False
+
+    def reduced(e, depth=0):
+        if isinstance(e, ast.BinOp) and isinstance(e.op, ast.Mod) and norm(e.right) == modname:
+            return True
+        if isinstance(e, ast.Call) and isinstance(e.func, ast.Name) and depth < 3:
+            h = m.functions.get(e.func.id)
+            if h is not None and isinstance(h.node, ast.FunctionDef):
+                rets = [r for r in ast.walk(h.node) if isinstance(r, ast.Return)]
+                return bool(rets) and all(r.value is not None and reduced(resolve_locals(h.node, r.value), depth + 1) for r in rets)
+        return False
+    def last_binding(f, c):
+        """value of the closest preceding assignment to the appended name in the statement list of the append (a name re-bound
+        step by step: val = index(val); val = val % p; xs.append(val))"""
+        a0 = c.args[0]
+        if not isinstance(a0, ast.Name):
+            return a0
+        st = c
+        while getattr(st, "_parent", None) is not None and not isinstance(st, ast.stmt):
+            st = st._parent
+        holder = getattr(st, "_parent", None)
+        for fld in ("body", "orelse", "finalbody"):
+            lst = getattr(holder, fld, None)
+            if isinstance(lst, list) and st in lst:
+                for prev in reversed(lst[:lst.index(st)]):
+                    if isinstance(prev, ast.Assign) and len(prev.targets) == 1 and norm(prev.targets[0]) == a0.id:
+                        return prev.value
+                    if any(isinstance(x, ast.Name) and x.id == a0.id and isinstance(x.ctx, ast.Store) for x in ast.walk(prev)):
+                        return a0
+        return a0
+    return bool(apps) and all(reduced(resolve_locals(f.node, c.args[0])) or reduced(last_binding(f, c)) for f, c in apps)
+
+
 def check(repo, rep, tier):
     rep.explanation = ("prove() of the snarkjs backend is interpreted symbolically (no execution): every writer call "
                        "contributes its width, every loop len(iterable) times its body; the resulting per-file event "
@@ -841,7 +892,12 @@ def check(repo, rep, tier):
                 else:
                     what = {"pubvals": "public witness values", "privvals": "private witness values"}.get(e.loop, "witness values of " + e.loop)
                     # the value written must be the loop variable (possibly reduced)
-                    canonical32(inner[0], what)
+                    if isinstance(inner[0].value, ast.Name) and norm(inner[0].value) == norm(e.node.target) and _stored_canonical(m, e.loop, modname):
+                        # the list holds canonical elements already: every append to it (who-may-append) stores `E % p`
+                        r1.ok(fi.loc(e.node), fi.fq, "%s: elements of `%s`" % (what, e.loop), "reduced where they are stored: every "
+                              "append to the list stores a value taken modulo the prime")
+                    else:
+                        canonical32(inner[0], what)
                     witness_slots.append(("loop", e.loop, e.count))
                     base = inner[0].value.left if isinstance(inner[0].value, ast.BinOp) and isinstance(inner[0].value.op, ast.Mod) else inner[0].value
                     if norm(base) != norm(e.node.target):
